@@ -34,7 +34,7 @@ RULE = (
 ASSUMPTIONS = [
     "numpy.histogram_bin_edges is the statement's reference for numpy-style arguments",
     "degenerate data (all values equal) may be refused by data-derived schemas",
-    "is_consecutive / is_regular are tolerance based: judged only on clearly (in)consecutive / (ir)regular bins",
+    "is_consecutive / is_regular are tolerance based: judged only on clearly (in)consecutive / (ir)regular bins (gap > 1e-3 of the neighbouring widths)",
     "knuth binning needs scipy (absent): skipped",
 ]
 BOUNDS = {"quick": "L=3, scales 10^-7..10^7 (15) x 3 offsets", "thorough": "L=4, 5 offsets"}
@@ -78,9 +78,9 @@ def representation_problems(b, _depth=0):
     exact_cons = all(pairs[i][1] == pairs[i + 1][0] for i in range(n - 1))
     gaps = [pairs[i + 1][0] - pairs[i][1] for i in range(n - 1)]
     widths = [r - l for l, r in pairs]
-    # is_consecutive() is tolerance based (atol 1e-8 + rtol 1e-5 * |edge|): judge only gaps far above that
-    clear_gap = any(g > 1e-3 * max(abs(pairs[i][1]), widths[i], 1e-300) and g > 100 * (1e-8 + 1e-5 * abs(pairs[i][1]))
-                    for i, g in enumerate(gaps))
+    # is_consecutive() is tolerance based: judged only on gaps that are a noticeable part (> 1e-3) of the bins around them -
+    # whatever the size of the edges themselves (a gap of 1 between bins of width 1 at 1e6 is a gap)
+    clear_gap = any(g > 1e-3 * min(widths[i], widths[i + 1]) for i, g in enumerate(gaps))
     cons = b.is_consecutive()
     if exact_cons and not cons:
         probs.append(("is_consecutive", True, cons))
